@@ -245,6 +245,10 @@ def main(argv):
         log("  note: " + note[:300])
     if c.tier == "thorough":
         coqchk(c)
+    # cross-property link (Utf8/FiltersInstance.v: the wf_utf8 of the C18 filter models = the model of the real IsUTF8);
+    # recorded in the evidence, not one of C12's obligations (it depends on C18's model and translator)
+    ok_inst, ilog = coq_make(["theories/Utf8/FiltersInstance.vo"], timeout=900)
+    c.cov["filters_instance_for_C18"] = "compiled" if ok_inst else ("not compiled: " + " ".join(ilog.split())[-300:])
     drv, dlog = build_driver("C12")
     impl = hx_bin("hx_utf8")
     tool = repo_bin("remove_invalid_utf8")
